@@ -65,3 +65,102 @@ def rule_ctor(prog, rep, tier):
     rep.ob("CTOR", "%d ast node constructions checked against the interpreter's _fields" % n, "holds" if not bad else "violation", "", "%d incomplete" % bad)
     if n < 60:
         raise AnalysisError("CTOR: only %d ast constructor calls found (about 100 are expected)" % n)
+
+
+# ---------------------------------------------------------------------------- CMP-PARSED (C10, C09)
+EMITTERS = ("emit.class_", "emit.function", "emit.argparse_function")
+
+
+def _side_kind(prog, fi, e, depth=0):
+    """'parsed' when the expression denotes (part of) a tree read from source, 'built' when it is what an emitter - a package
+    function of `emit`, or a function handed in as a parameter - returned, None when neither is visible.  Judged on the
+    structure of the expression: the arguments of an emitter say nothing about what it returns."""
+    if e is None or depth > 8:
+        return None
+    if isinstance(e, (ast.Subscript, ast.Attribute)):
+        return _side_kind(prog, fi, e.value, depth + 1)
+    if isinstance(e, ast.IfExp):
+        ks = {_side_kind(prog, fi, e.body, depth + 1), _side_kind(prog, fi, e.orelse, depth + 1)} - {None}
+        return "built" if "built" in ks else ("parsed" if ks else None)
+    if isinstance(e, ast.Name):
+        defs = [st.value for st in ast.walk(fi.node) if isinstance(st, ast.Assign) and any(isinstance(t, ast.Name) and t.id == e.id for t in st.targets)]
+        ks = {_side_kind(prog, fi, d, depth + 1) for d in defs} - {None}
+        return "built" if "built" in ks else ("parsed" if ks else None)
+    if isinstance(e, ast.Call) and isinstance(e.func, (ast.Name, ast.Attribute)):
+        en = prog.ext_name(e.func, e)
+        tg = [t.qualname for t in prog.resolve_expr_fn(e.func, e) if hasattr(t, "qualname")]
+        if en == "ast.parse" or any(q.endswith(".ast_parse") for q in tg):
+            return "parsed"
+        if any(q.endswith(".find_in_ast") for q in tg) and len(e.args) >= 2:
+            return _side_kind(prog, fi, e.args[1], depth + 1)
+        if en in ("copy.deepcopy", "copy.copy") and e.args:
+            return _side_kind(prog, fi, e.args[0], depth + 1)
+        if any(q.startswith("emit.") and q != "emit.file" for q in tg):
+            return "built"
+        if isinstance(e.func, ast.Name) and e.func.id in fi.params():
+            return "built"  # a function handed in (the emitter of the table row): what it returns was not read from source
+    return None
+
+
+def rule_cmp_parsed(prog, rep, tier, anchor="conformance._conform_filename"):
+    """CMP-PARSED (C10, C09): the test that decides "this target already is what would be written" compares a node read from the
+    target's source with a node built by the emitters.  The comparison (`cmp_ast`) goes through every entry of `_fields` of the
+    *running interpreter's* node classes; a parsed node has them all, a node built by constructor calls has what the calls
+    supply (optional `?` fields default to None, lists do not).  Either the built side is read back through a parse before the
+    comparison, or every node construction the emitters can reach supplies every non-optional field - else the two are never
+    equal, every run rewrites the target and reports it modified."""
+    fi = prog.fn(anchor)
+    cmps = []
+    for f in prog.region(fi):
+        for c in ast.walk(f.node):
+            if isinstance(c, ast.Call) and isinstance(c.func, (ast.Name, ast.Attribute)) and (prog.ext_name(c.func, c) or "").endswith("cmp_ast") and len(c.args) == 2:
+                cmps.append((f, c))
+    if not cmps:
+        raise AnalysisError("CMP-PARSED: no cmp_ast(...) comparison found in %s" % anchor)
+    # what the emitters build
+    incomplete = {}
+    n_ctor = 0
+    roots = [prog.fn(q) for q in EMITTERS if prog.has_fn(q)]
+    reach = {id(f.node) for f in prog.reachable(roots)}
+    for call in prog.all_calls():
+        fn = enclosing_fn(call)
+        top = fn
+        while top is not None and top.parent_fn is not None:
+            top = top.parent_fn
+        if top is None or id(top.node) not in reach or not isinstance(call.func, (ast.Name, ast.Attribute)):
+            continue
+        en = prog.ext_name(call.func, call)
+        if not en or not en.startswith("ast."):
+            continue
+        cls = getattr(ast, en[4:], None)
+        if not (isinstance(cls, type) and issubclass(cls, ast.AST)) or not getattr(cls, "_fields", None) or any(isinstance(a, ast.Starred) for a in call.args):
+            continue
+        fields, _ = _mandatory(cls)
+        doc = (cls.__doc__ or "").replace("\n", " ")
+        m = re.match(r"\w+\((.*)\)", doc)
+        if not m:
+            continue
+        opt = {p.strip().rpartition(" ")[2] for p in m.group(1).split(",") if p.strip().rpartition(" ")[0].endswith("?")}
+        given = set(fields[: len(call.args)]) | {k.arg for k in call.keywords if k.arg}
+        if any(k.arg is None for k in call.keywords):
+            continue
+        n_ctor += 1
+        missing = [f for f in fields if f not in opt and f not in given]
+        if missing:
+            incomplete.setdefault((en[4:], tuple(missing)), []).append(call)
+    for f, c in cmps:
+        kinds = [_side_kind(prog, f, a) for a in c.args]
+        inst = "%s: %s" % (prog.owner_name(f), src(c, 60))
+        if "built" in kinds and "parsed" in kinds and incomplete:
+            (node, missing), calls = sorted(incomplete.items(), key=lambda kv: kv[0])[0]
+            rep.violation(Finding(
+                "CMP-PARSED", prog.owner_name(f), "parsed-vs-built:%s" % "+".join(sorted({"%s.%s" % (n_, m_) for (n_, ms) in incomplete for m_ in ms})),
+                "%s compares a node read from source with a node built by the emitters, and %d construction(s) the emitters reach leave out a non-optional field of this "
+                "interpreter's grammar (e.g. %s without %s at %s): a parsed node always has it, so the two are never equal - every run rewrites the target and reports "
+                "it modified although nothing changes" % (src(c, 50), sum(len(v) for v in incomplete.values()), node, list(missing), loc(prog, calls[0])), loc(prog, c)))
+        elif "built" in kinds and "parsed" in kinds:
+            rep.holds("CMP-PARSED", inst, loc(prog, c), "%d node constructions reachable from the emitters supply every non-optional field" % n_ctor)
+        elif kinds.count("parsed") == 2:
+            rep.holds("CMP-PARSED", inst, loc(prog, c), "both sides are read from source (the built node is read back through a parse first)")
+        else:
+            rep.ob("CMP-PARSED", inst, "unresolved", loc(prog, c), "origin of the compared nodes not recognised: %r" % (kinds,))
